@@ -56,7 +56,7 @@ def gen_mpscr(rng, tier):
 
 SPEC = {
     "C15": {
-        "extra_props": ("AbsQueue",),
+        "extra_props": ("AbsQueue", "QueueHist",),
         "parts": [
             {"name": "mpsc", "harness": "mpsc", "model": "Mpsc", "gen": gen_mpsc},
             {"name": "spsc", "harness": "spsc", "model": "Spsc", "gen": gen_spsc},
